@@ -1,5 +1,6 @@
 import Driver.Util
 import Driver.MD
+import Driver.Cmds
 /-! Line-protocol driver: one command per input line, one output line per input line. -/
 open Drv
 
@@ -7,6 +8,19 @@ def dispatch (line : String) : String :=
   match words line with
   | [] => ""
   | "md" :: args => MDrv.cmd args
+  | "int10" :: a => cmdInt10 a
+  | "intbase" :: a => cmdIntBase a
+  | "float" :: a => cmdFloat a
+  | "strptime" :: a => cmdStrptime a
+  | "foldeq" :: a => cmdCasefoldEq a
+  | "splitws" :: a => cmdSplitWs a
+  | "decode" :: a => cmdDecode a
+  | "datetime" :: a => cmdDatetime a
+  | "tokpred" :: a => cmdTokPred a
+  | "lex" :: a => cmdLex a
+  | "parse" :: a => cmdParse a
+  | "prepass" :: a => cmdPrepass a
+  | "allowed" :: a => cmdAllowed a
   | "ping" :: _ => "pong"
   | _ => "bad-cmd"
 
